@@ -1,5 +1,6 @@
 """C04 - files return exactly the bytes that were written."""
 import re
+import vfx
 from props import hist, histprop
 
 ALL = hist.CONFIGS
@@ -44,5 +45,75 @@ P = histprop.HistProp(
           "successful and 1 failing call; distinct by the transcript of outcomes"),
     assumptions=["write positions stay below 100 kB (a Vec<u8> of 2^60 bytes cannot be allocated)",
                  "seek on append handles is compared on the in-memory backend only (the generator does not seek on append handles)"])
-generate, corpus, run_and_compare, known = P.generate, P.corpus, P.run_and_compare, P.known
-RULE, ASSUMPTIONS, BUILDS = P.RULE, P.ASSUMPTIONS, P.BUILDS
+generate, corpus, known = P.generate, P.corpus, P.known
+ASSUMPTIONS, BUILDS = P.ASSUMPTIONS, P.BUILDS
+RULE = P.RULE + ("; the ASYNC port: write sessions (create / append, contents of every size class, ended by drop or by an "
+                 "explicit close() followed by the drop, single or repeated on one path) on memory, altroot, overlay (copy-up) "
+                 "and physical backends through the async API, read back afresh and compared with the sync run and the async model")
+
+
+def async_sessions():
+    """completed write sessions through the async port; half of them end with AsyncWrite::close before the drop"""
+    import random
+    rng = random.Random(44)
+    sizes = [b"", b"x", b"hello world", bytes([0, 159, 146, 150]), bytes((j * 7) % 256 for j in range(8193)),
+             bytes((j * 3) % 251 for j in range(70000))]
+    cases = []
+    for kind in ("mem", "alt_mem", "ovl_mm", "ovl_mmm", "phys"):
+        for closing in (False, True):
+            c = vfx.Case("c04_async_%s_%s" % (kind, "close" if closing else "drop"))
+            g = hist.build_config(c, kind, rng)
+            c.cfg = g
+            t = g.target
+            if g.prepop:
+                lo, sub = g.prepop[-1]
+                hist.write_file(c, lo, (sub[1:] + "/" if sub else "") + "low", b"lower bytes")
+            for i, data in enumerate(sizes):
+                f = vfx.ps(t, "f%d" % i)
+                w = c.op("createfile", f)
+                for part in (data[:len(data) // 2], data[len(data) // 2:]):
+                    c.op("hwrite", w, vfx.hexs(part))
+                if closing:
+                    c.op("xclose", w)
+                c.op("hdrop", w)
+                c.op("readtostring", f); c.op("metadata", f)
+                a = c.op("appendfile", f); c.op("hwrite", a, vfx.hexs(b"+tail"))
+                if closing:
+                    c.op("xclose", a)
+                c.op("hdrop", a)
+                c.op("readtostring", f); c.op("metadata", f)
+            if g.prepop:
+                a = c.op("appendfile", vfx.ps(t, "low")); c.op("hwrite", a, vfx.hexs(b"+up"))
+                if closing:
+                    c.op("xclose", a)
+                c.op("hdrop", a)
+                c.op("readtostring", vfx.ps(t, "low"))
+            c.op("snap", t)
+            cases.append(c)
+    return cases
+
+
+def run_and_compare(cases, tier):
+    from props import c15
+    res = P.run_and_compare(cases, tier)
+    sub = async_sessions()
+    sync, asy, pend, amodel = c15.run_variants(sub, "c04a", seed=4)
+    by = {c.name: c for c in sub}
+    seen = set()
+    n = 0
+    for k in sorted(set(sync) | set(asy) | set(pend) | set(amodel), key=lambda k: (k[1], k[2], k[0])):
+        kind, cname, step = k
+        if kind != "r" or cname in seen:
+            continue
+        c = by[cname]
+        op = c.ops[step] if step < c.nops else ""
+        views = [histprop.contract_view(hist.strip_times(x)) if x is not None else None for x in (sync.get(k), asy.get(k), pend.get(k), amodel.get(k))]
+        n += 1
+        if len(set(views)) > 1:
+            seen.add(cname)
+            which = "async port vs sync API" if views[0] != views[1] else "async port with pending futures" if views[1] != views[2] else "async port vs async model"
+            res["disagreements"].append({"case": cname, "case_text": c.text(), "step": step, "op": op, "kind": "r", "model": amodel.get(k),
+                                         "impl": asy.get(k), "violates": True,
+                                         "note": "%s at `%s`: sync %s / async %s / model %s" % (which, op[:50], (views[0] or "")[:80], (views[1] or "")[:80], (views[3] or "")[:80])})
+    res["stats"].setdefault("distribution", {})["async_session_lines_compared"] = n
+    return res
